@@ -85,6 +85,11 @@ def lp_work(inp):
         with quiet():
             mk = lambda bl: E.build_profile(inp["cands"], bl, inp.get("names"), inp.get("cand_order"))  # noqa
             A, B, C = mk(inp["a"]), mk(inp["b"]), mk(inp["c"])
+            hist = rng.randrange(4)
+            if hist == 1:           # the profiles have been looked at before: raw and standardized dictionaries requested in either order
+                A.to_ranking_dict(); B.to_ranking_dict(standardize=True); C.to_ranking_dict()
+            elif hist == 2:
+                A.to_ranking_dict(standardize=True); A.to_ranking_dict(); B.to_ballot_dict()
             dab, dbc, dac, dba = lp_dist(A, B, pv), lp_dist(B, C, pv), lp_dist(A, C, pv), lp_dist(B, A, pv)
             t["vals"] = {"ab": qrat(dab, p), "bc": qrat(dbc, p), "ac": qrat(dac, p), "ba": qrat(dba, p)}
             t["tri"] = bool(float(dac) <= float(dab) + float(dbc) + 1e-9)
